@@ -28,6 +28,9 @@ type ModelSpec struct {
 	Mat  string `json:"mat"`
 	TRS  string `json:"trs"`
 	Inst int    `json:"inst"`
+	// SharedInst: the model's instance list is a prefix (of length Inst) of one array that every such
+	// model of the scene slices — same first element, different lengths
+	SharedInst bool `json:"shared_inst,omitempty"`
 }
 
 type Case struct {
@@ -47,6 +50,9 @@ func (cs Case) key() string {
 	}
 	for _, m := range cs.Models {
 		s += fmt.Sprintf("|%s,%s,%s,%d", m.Mesh, m.Mat, m.TRS, m.Inst)
+		if m.SharedInst {
+			s += "s"
+		}
 	}
 	return s
 }
@@ -453,6 +459,7 @@ func modelNameOf(cs Case, k int) string {
 func Build(cs Case) gltf.PolyformScene {
 	p := &pools{map[string]*modeling.Mesh{}, map[string]*gltf.PolyformMaterial{}, map[string]*gltf.PolyformTexture{}}
 	var sc gltf.PolyformScene
+	var sharedInst []trs.TRS
 	for k, ms := range cs.Models {
 		m := gltf.PolyformModel{Name: modelNameOf(cs, k), Mesh: p.meshPtr(ms.Mesh), Material: p.material(ms.Mat)}
 		if hasT(ms.TRS) {
@@ -467,8 +474,17 @@ func Build(cs Case) gltf.PolyformScene {
 			s := v3(modelS(k, ms.TRS))
 			m.Scale = &s
 		}
-		for j := 0; j < ms.Inst; j++ {
-			m.GpuInstances = append(m.GpuInstances, trs.New(v3(instT(k, j)), q4(instR(k, j)), v3(instS(k, j))))
+		if ms.SharedInst {
+			if sharedInst == nil {
+				for j := 0; j < 4; j++ {
+					sharedInst = append(sharedInst, trs.New(v3(instT(0, j)), q4(instR(0, j)), v3(instS(0, j))))
+				}
+			}
+			m.GpuInstances = sharedInst[:ms.Inst]
+		} else {
+			for j := 0; j < ms.Inst; j++ {
+				m.GpuInstances = append(m.GpuInstances, trs.New(v3(instT(k, j)), q4(instR(k, j)), v3(instS(k, j))))
+			}
 		}
 		sc.Models = append(sc.Models, m)
 	}
